@@ -26,7 +26,7 @@ type c15Case struct {
 	Extra  []string       `json:"extra,omitempty"` // extra entries (relative to the target) present in it
 }
 
-var c15Ops = []string{"text", "noiter", "json", "yaml", "toml", "dryrun", "walk", "mkdir", "verify"}
+var c15Ops = []string{"text", "noiter", "json", "yaml", "toml", "dryrun", "walk", "mkdir", "verify", "massive-text", "massive-json", "massive-mkdir"}
 
 func init() { registerReplay("c15", c15Check) }
 
@@ -65,11 +65,14 @@ func c15Run(c c15Case, sp model.Spelling) *ops.Result {
 	cs := ops.NewCase("output", "md")
 	cs.Doc = []byte(model.Spell(c.Forest, sp))
 	cs.Opts.Branch = c.Branch
-	switch c.Op {
+	if strings.HasPrefix(c.Op, "massive-") {
+		cs.Opts.Massive = true
+	}
+	switch strings.TrimPrefix(c.Op, "massive-") {
 	case "noiter":
 		cs.Opts.NoIter = true
 	case "json", "yaml", "toml":
-		cs.Opts.Encode = c.Op
+		cs.Opts.Encode = strings.TrimPrefix(c.Op, "massive-")
 	case "dryrun":
 		cs.Opts.DryRun = true
 		cs.Opts.Exts = c.Exts
@@ -93,6 +96,9 @@ func c15Run(c c15Case, sp model.Spelling) *ops.Result {
 			pre = append(pre, ops.FSEntry{Path: e, Kind: "d"})
 		}
 		cs.FS = &ops.FSSpec{Pre: pre}
+	}
+	if cs.Opts.Massive {
+		return pool("plain").Run(&cs)
 	}
 	return ops.DefaultEnv.Run(&cs)
 }
@@ -152,6 +158,10 @@ func c15Check(c c15Case) string {
 	if e1 != e2 && !strings.HasPrefix(e1, "incorrect input format") {
 		return fmt.Sprintf("%serror texts differ: %q vs %q", head, r1.Err.Text, r2.Err.Text)
 	}
+	if strings.HasPrefix(c.Op, "massive-") {
+		// the order of roots is free in massive mode: compare the outputs as multisets of lines
+		r1.Out, r2.Out = []byte(sortedLines(string(r1.Out))), []byte(sortedLines(string(r2.Out)))
+	}
 	if string(r1.Out) != string(r2.Out) {
 		return fmt.Sprintf("%soutputs differ: %s\noutput 1:\n%s\noutput 2:\n%s", head, firstDiff(string(r1.Out), string(r2.Out)), r1.Out, r2.Out)
 	}
@@ -163,7 +173,7 @@ func c15Check(c c15Case) string {
 			return fmt.Sprintf("%svisit %d differs: %+v vs %+v", head, i, r1.Visits[i], r2.Visits[i])
 		}
 	}
-	if c.Op == "mkdir" || c.Op == "verify" {
+	if c.Op == "mkdir" || c.Op == "verify" || c.Op == "massive-mkdir" {
 		a1, a2 := snapString(stripMtime(r1.After)), snapString(stripMtime(r2.After))
 		if a1 != a2 {
 			return fmt.Sprintf("%sfilesystem after the call differs:\n--- 1\n%s--- 2\n%s", head, a1, a2)
@@ -276,7 +286,7 @@ func validElemPool() []string {
 func c15Gen() *rapid.Generator[c15Case] {
 	return rapid.Custom(func(t *rapid.T) c15Case {
 		op := rapid.SampledFrom(c15Ops).Draw(t, "op")
-		fsOp := op == "mkdir" || op == "verify" || op == "dryrun"
+		fsOp := op == "mkdir" || op == "verify" || op == "dryrun" || op == "massive-mkdir"
 		var names *rapid.Generator[string]
 		if fsOp {
 			names = sampled(validElemPool())
@@ -285,7 +295,7 @@ func c15Gen() *rapid.Generator[c15Case] {
 		}
 		fp := forestParams{maxNodes: 14, maxDepth: 8, names: names, oneRoot: op == "toml"}
 		f := genForest(fp).Draw(t, "forest")
-		if (op == "mkdir" || op == "verify") && hasDupRoots(f) {
+		if (op == "mkdir" || op == "verify" || op == "massive-mkdir") && hasDupRoots(f) {
 			uniqRoots(f)
 		}
 		c := c15Case{Forest: f, Op: op}
@@ -294,7 +304,7 @@ func c15Gen() *rapid.Generator[c15Case] {
 		switch op {
 		case "text", "noiter", "walk":
 			c.Branch = genBranch().Draw(t, "branch")
-		case "dryrun", "mkdir":
+		case "dryrun", "mkdir", "massive-mkdir":
 			c.Exts = genExts(f.Names()).Draw(t, "exts")
 		case "verify":
 			c.Strict = rapid.Bool().Draw(t, "strict")
